@@ -167,26 +167,28 @@ func execRoundHash(_ *State, line string) Result {
 	fh.Write([]byte(line))
 	r := NewRand(fh.Sum64())
 
-	// the observed call
-	snaps := buildSnaps(in, r.Fork())
-	var got rhResult
-	var order []crypto.Hash
-	var firstTs, lastTs uint64
-	nilRound := false
-	switch op {
-	case "rh":
-		got = runCommon(node, number, snaps)
-	case "rhs":
-		ts := withTopo(snaps, r.Fork())
-		got = runStorage(node, number, ts)
-		for i := range ts {
-			snaps[i] = ts[i].Snapshot
+	// the implementation under observation; returns the slice in the order it was left in
+	runOp := func(in []rhSnap, other *Rand) (rhResult, bool, []*common.Snapshot) {
+		snaps := buildSnaps(in, other)
+		switch op {
+		case "rh":
+			return runCommon(node, number, snaps), false, snaps
+		case "rhs":
+			ts := withTopo(snaps, r.Fork())
+			g := runStorage(node, number, ts)
+			for i := range ts {
+				snaps[i] = ts[i].Snapshot
+			}
+			return g, false, snaps
+		case "fin":
+			g, isNil := runKernel(node, number, snaps)
+			return g, isNil, snaps
 		}
-	case "fin":
-		got, nilRound = runKernel(node, number, snaps)
-	default:
 		panic("harness: unknown op " + op)
 	}
+	got, nilRound, snaps := runOp(in, r.Fork())
+	var order []crypto.Hash
+	var firstTs, lastTs uint64
 	for _, s := range snaps {
 		order = append(order, s.Hash)
 	}
@@ -229,11 +231,11 @@ func execRoundHash(_ *State, line string) Result {
 	if nilRound {
 		return res
 	}
-	// other fields do not matter (same order of supply)
-	if o := runCommon(node, number, buildSnaps(in, r.Fork())); o != got {
+	// other fields do not matter (same order of supply, same implementation)
+	if o, _, _ := runOp(in, r.Fork()); o != got {
 		fail("C18:depends-on-other-fields", fmt.Sprintf("changing fields other than version/timestamp/hash changed the result: %s vs %s", got, o))
 	}
-	// order of supply does not matter
+	// order of supply does not matter (same implementation)
 	var perms [][]rhSnap
 	if n >= 2 {
 		if n <= 8 {
@@ -251,11 +253,17 @@ func execRoundHash(_ *State, line string) Result {
 		}
 	}
 	for _, p := range perms {
-		if o := runCommon(node, number, buildSnaps(p, nil)); o != got {
+		if o, _, _ := runOp(p, nil); o != got {
 			fail("C18:order-dependent", fmt.Sprintf("a permutation of the same snapshots gives %s instead of %s", o, got))
 		}
+	}
+	// the implementations agree, on the same and on permuted supplies
+	for _, p := range perms {
+		if o := runCommon(node, number, buildSnaps(p, nil)); o != got {
+			fail("C18:validator-disagrees", fmt.Sprintf("common.ComputeRoundHash on a permutation gives %s, observed %s", o, got))
+		}
 		if o := runStorage(node, number, withTopo(buildSnaps(p, nil), r)); o != got {
-			fail("C18:validator-disagrees", fmt.Sprintf("storage.computeRoundHash on a permutation gives %s, common.ComputeRoundHash %s", o, got))
+			fail("C18:validator-disagrees", fmt.Sprintf("storage.computeRoundHash on a permutation gives %s, observed %s", o, got))
 		}
 	}
 	// the two other implementations on the same supply order
